@@ -8,7 +8,14 @@ Correspondence:
  (b) full import path through child interpreters sharing a private warm PYTHONPYCACHEPREFIX
      (`import`: truncations at the header boundaries and payload offsets, stale header
      fields, touched/edited source, other magic, empty/missing file, two hash seeds; `xerr`:
-     a valid cache whose execution raises a class the fallback catches).
+     a valid cache whose execution raises a class the fallback catches);
+ (c) in-process histories (`hist`): ONE child interpreter per case imports a namespace, edits
+     its source (mtime and/or size change, touch, edit back), reloads it (importlib.reload,
+     Namespace.reload, (require 'ns :reload)), damages the cache file, calls
+     importlib.invalidate_caches(), switches sys.dont_write_bytecode; after every import /
+     reload: which version's definitions are visible, was the cache used, what cache file is
+     left behind; compared with the reference semantics of Spec.v and the model of Reload.v;
+ (d) `shape`: who stats the source file, read off importer.py (tr_importer.stats_in_spec_shape).
 """
 import base64
 import os
@@ -39,9 +46,17 @@ RULE = ("decoding layer: EVERY truncation length 0..len of 3 real cache files wr
         "negative and >= 2^32 values; keyword intern table: random histories over 3 names x 3 "
         "compile-time hash variants. import path (child interpreters): cut at 0,3,4,7,8,11,12 bytes, "
         "payload cuts, stale header fields, touched and edited source, other magic, missing file, "
-        "writer/reader hash seeds 1/1 and 1/2. A case is non-trivial when the file under test is not "
-        "the pristine valid cache read in the writer's own process configuration.")
-TRUSTED = ["CPython marshal: loads(dumps(c)) = c and every proper prefix of a dump raises EOFError "
+        "writer/reader hash seeds 1/1 and 1/2. in-process histories (one child interpreter each): "
+        "16 designed histories covering import / edit (mtime only, size only, both, touch, edit back to "
+        "an earlier version and its stamp) / reload through importlib.reload, Namespace.reload and "
+        "(require 'ns :reload) / import of a loaded module / every damage kind / invalidate_caches / "
+        "dont_write_bytecode on and off, plus random honest histories of 3..10 steps over 4 versions, "
+        "5 mtimes and 3 sizes. A case is non-trivial when the file under test is not "
+        "the pristine valid cache read in the writer's own process configuration (histories: when a "
+        "reload follows an edit or a damage).")
+TRUSTED = ["importlib of CPython 3.12 (which loader methods import_module / reload call: modelled in "
+           "C14/Reload.v, exercised by every history case)",
+           "CPython marshal: loads(dumps(c)) = c and every proper prefix of a dump raises EOFError "
            "(Section hypotheses H_marshal_roundtrip / H_marshal_prefix_fails; the second is exercised on "
            "every prefix of every real payload of the run, outcome classes listed in the evidence)",
            "the compiler and the execution of a module are parameters of the loader model (compile, run)",
@@ -229,6 +244,87 @@ def _import_cases(tier, rng, nss):
     return cs
 
 
+def _hist_cases(tier, rng):
+    """In-process histories.  Honesty by construction: source mtimes are M0 + even offsets and
+    pads (hence sizes) even, every stamp (mtime, pad) belongs to one version for the whole
+    history; planted header fields use odd deltas, so they never claim a stamp a source has."""
+    M0 = I.SRC_MTIME
+    T = lambda **kw: ["touch", dict(kw)]      # noqa: E731
+    ctr = [0]
+
+    def H(steps, dwb=False, again=False, pad=0):
+        ctr[0] += 1
+        return {"k": "hist", "ns": f"c14h.h{ctr[0]:03d}", "dwb": dwb, "again": again, "mtime": M0, "pad": pad,
+                "steps": steps}
+    IMP, REL, RNS, RRQ, INV = ["import"], ["reload", "importlib"], ["reload", "ns"], ["reload", "require"], ["invalidate"]
+    cs = [
+        H([IMP, ["edit", 2, M0 + 2, 0], REL], again=True),                       # mtime only
+        H([IMP, ["edit", 2, M0, 2], RNS], again=True),                           # size only
+        H([IMP, ["edit", 2, M0 + 2, 2], RRQ]),                                   # both
+        H([IMP, ["edit", 1, M0 + 4, 0], REL], again=True),                       # touched, same content
+        H([IMP, REL, IMP, RNS, RRQ]),                                            # unchanged: the cache is used
+        H([IMP, ["edit", 2, M0 + 2, 0], REL, ["edit", 3, M0 + 4, 2], RRQ, ["edit", 1, M0, 0], RNS], again=True),
+        H([REL, IMP, INV, ["edit", 2, M0 + 2, 0], REL, INV, REL]),
+        H([IMP, T(kind="trunc", n=7), REL, T(kind="trunc_pay", num=1, den=2), RNS,
+           T(kind="magic", bytes=[0x7c, 4, 13, 10]), REL, T(kind="missing"), RRQ, T(kind="trunc_tail", n=1), REL],
+          again=True),
+        H([IMP, T(kind="hdr_mtime", delta=1), REL, T(kind="hdr_size", delta=-1), RNS,
+           T(kind="hdr_mtime", delta=2 ** 32), REL]),
+        H([IMP, ["edit", 2, M0 + 2, 0], REL, IMP], dwb=True, again=True),        # nothing is ever written
+        H([IMP, ["setdwb", True], ["edit", 2, M0 + 2, 0], REL, ["edit", 1, M0, 0], RNS, ["setdwb", False],
+           ["edit", 2, M0 + 2, 0], REL], again=True),                            # the old cache becomes valid again
+        H([IMP, ["edit", 2, M0 + 2, 0], T(kind="trunc", n=3), REL]),
+        H([IMP, ["edit", 2, M0 + 2, 0], REL, ["edit", 2, M0 + 4, 0], REL, REL], pad=2),
+        H([IMP, ["edit", 2, M0 + 2, 0], IMP, RRQ, IMP]),                         # import of a loaded module: nothing
+        H([INV, IMP, ["edit", 2, M0, 4], INV, RRQ], again=True),
+        H([IMP, ["setdwb", True], T(kind="missing"), REL, ["setdwb", False], RNS], again=True),
+    ]
+    for _ in range(10 if tier == "quick" else 60):
+        ver, off, pad = 1, 0, rng.choice([0, 2])
+        pad0 = pad
+        stamps = {(off, pad): ver}
+        loaded, tails = False, 0
+        steps = [IMP] if rng.random() < 0.85 else []
+        loaded = bool(steps)
+        for _ in range(rng.randint(3, 10)):
+            x = rng.random()
+            if x < 0.08:
+                steps.append(IMP)
+                loaded = True
+            elif x < 0.45:
+                steps.append(rng.choice([REL, RNS, RRQ]) if loaded else REL)
+            elif x < 0.70:
+                for _ in range(20):
+                    v2, o2, p2 = rng.randint(1, 4), rng.choice([0, 2, 4, 6, 8]), rng.choice([0, 2, 4])
+                    if stamps.get((o2, p2), v2) == v2 and (v2, o2, p2) != (ver, off, pad):
+                        stamps[(o2, p2)] = v2
+                        ver, off, pad = v2, o2, p2
+                        steps.append(["edit", ver, M0 + off, pad])
+                        break
+            elif x < 0.88:
+                kind = rng.choice(["trunc", "trunc_pay", "trunc_tail", "magic", "missing", "hdr_mtime", "hdr_size"])
+                if kind == "trunc_tail":
+                    tails += 1
+                    if tails > 3:
+                        kind = "missing"
+                steps.append(["touch", {
+                    "trunc": {"kind": "trunc", "n": rng.randint(0, 11)},
+                    "trunc_pay": {"kind": "trunc_pay", "num": rng.randint(0, 9), "den": 10},
+                    "trunc_tail": {"kind": "trunc_tail", "n": rng.randint(1, 4)},
+                    "magic": {"kind": "magic", "bytes": [rng.choice([0x7c, 0x7e, 0]), 4, 13, 10]},
+                    "missing": {"kind": "missing"},
+                    "hdr_mtime": {"kind": "hdr_mtime", "delta": rng.choice([1, -1, 255, 2 ** 31 + 1])},
+                    "hdr_size": {"kind": "hdr_size", "delta": rng.choice([1, -1, 255, 2 ** 31 + 1])}}[kind]])
+            elif x < 0.95:
+                steps.append(INV)
+            else:
+                steps.append(["setdwb", rng.random() < 0.5])
+        if loaded and steps[-1][0] != "reload":
+            steps.append(rng.choice([REL, RNS, RRQ]))
+        cs.append(H(steps, dwb=rng.random() < 0.15, again=rng.random() < 0.3, pad=pad0))
+    return cs
+
+
 def _clean():
     I.cleanup(SCRATCH)
 
@@ -258,6 +354,8 @@ def cases(tier, rng):
     yield from _import_cases(tier, rng, nss[1:] if tier == "quick" else nss)
     for e in ("OSError", "ImportError", "FileNotFoundError", "EOFError", "ValueError"):
         yield {"k": "xerr", "exc": e}
+    yield {"k": "shape"}
+    yield from _hist_cases(tier, rng)
 
 
 # ---- Gallina ---------------------------------------------------------------------------
@@ -304,6 +402,23 @@ def coq_pert(p, case):
     raise ValueError(k)
 
 
+def _coq_hstep(st, ns):
+    op = st[0]
+    if op == "import":
+        return "HImport"
+    if op == "reload":
+        return "HReload"
+    if op == "invalidate":
+        return "HInvalidate"
+    if op == "setdwb":
+        return f"(HSetDwb {G.b(bool(st[1]))})"
+    if op == "edit":
+        return f"(HEdit {G.n(st[1])} {G.z(st[2])} {G.z(len(I.hist_src(ns, st[1], st[3]).encode()))})"
+    if op == "touch":
+        return f"(HTouch {coq_pert(st[1], None)})"
+    raise ValueError(op)
+
+
 def coq_case(c):
     k = c["k"]
     if k == "sweep":
@@ -331,6 +446,12 @@ def coq_case(c):
     if k == "xerr":
         e = {"FileNotFoundError": "OSError"}.get(c["exc"], c["exc"])
         return f"(CXerr {e})"
+    if k == "shape":
+        return "CShape"
+    if k == "hist":
+        size = len(I.hist_src(c["ns"], 1, c["pad"]).encode())
+        return (f"(CHist {G.b(bool(c.get('dwb')))} {G.b(bool(c.get('again')))} {G.z(c['mtime'])} {G.z(size)} "
+                + G.lst([_coq_hstep(st, c["ns"]) for st in c["steps"]], "hstep") + ")")
     raise ValueError(k)
 
 
@@ -356,6 +477,24 @@ def coq_out(o):
         flags = [o["written_valid"], o["loaded"], o["recompiled"], o["same"], o["cache_valid_after"],
                  o.get("again_from_cache", True), kc[0], all(kc[1:])]
         return "(OImport " + " ".join(G.b(bool(f)) for f in flags) + " " + _oexc(de) + ")"
+    if "hist" in o:
+        items = []
+        for e in o["hist"]:
+            if e.get("t") == "load":
+                de = e.get("decode_exc")
+                if e.get("raised") or (de is not None and de not in CLASSES) or not isinstance(e.get("ver"), int):
+                    return "(OErr 4%N)"
+                items.append(f"(HLoad {G.n(e['ver'])} {G.b(bool(e['used']))} {G.b(bool(e['recompiled']))} "
+                             f"{_oexc(de)} {G.b(bool(e['cva']))})")
+            elif e.get("t") == "already" and isinstance(e.get("ver"), int):
+                items.append(f"(HAlready {G.n(e['ver'])})")
+            elif e.get("t") == "notloaded":
+                items.append("HNotLoaded")
+            else:
+                return "(OErr 4%N)"
+        return "(OHist " + G.lst(items, "hobs") + ")"
+    if "shape" in o:
+        return "(OShape " + ("(@None bool)" if o["shape"] is None else f"(Some {G.b(bool(o['shape']))})") + ")"
     if "ticks" in o:
         def cls(x):
             return None if x == "ok" else x
@@ -391,16 +530,34 @@ def nontrivial(c, o):
         return (c["m"], c["s"]) != (c["m2"], c["s2"])
     if k == "kwops":
         return len(c["ops"]) > 1
+    if k == "hist":
+        changed = False
+        for st in c["steps"]:
+            if st[0] in ("edit", "touch"):
+                changed = True
+            elif st[0] == "reload" and changed:
+                return True
+        return False
     return True
 
 
 def describe(c):
+    if c["k"] == "hist":
+        return (f"one process over {c['ns']} (dont_write_bytecode={c.get('dwb')}, version 1 mtime {c['mtime']} "
+                f"pad {c['pad']}): {c['steps']}" + ("; then a fresh process imports it" if c.get("again") else ""))
+    if c["k"] == "shape":
+        return "which method of BasilispImporter stats the source file (static reading of importer.py)"
     if c["k"] == "import":
         return f"import {c['ns']} with cache perturbation {c['pert']} writer seed {c.get('wseed', 1)} reader seed {c.get('rseed', 1)}"
     return c["k"]
 
 
 def shrink(c):
+    if c["k"] == "hist":
+        if c.get("again"):
+            yield dict(c, again=False)
+        for i in range(len(c["steps"])):
+            yield dict(c, steps=c["steps"][:i] + c["steps"][i + 1:])
     if c["k"] == "kwops":
         for i in range(len(c["ops"])):
             yield dict(c, ops=c["ops"][:i] + c["ops"][i + 1:])
@@ -413,6 +570,8 @@ def shrink(c):
 
 def extra_evidence(cases_, outs):
     dist, marshal_out, dec = {}, {}, {}
+    hist = {"loads": 0, "reloads_after_edit_or_damage": 0, "loads_from_cache": 0, "loads_recompiled": 0,
+            "imports_of_loaded_module": 0, "visible_version_differs_from_current": 0}
     sweeps, wrap = [], None
     children = 0
     for c, o in zip(cases_, outs):
@@ -428,10 +587,27 @@ def extra_evidence(cases_, outs):
             wrap = o.get("stale")
         if c["k"] == "import":
             dec[f"import:{o.get('decode_exc')}"] = dec.get(f"import:{o.get('decode_exc')}", 0) + 1
+        if c["k"] == "hist":
+            loads = [e for e in o.get("hist", []) if e.get("t") == "load"]
+            hist["loads"] += len(loads)
+            hist["loads_from_cache"] += sum(1 for e in loads if e.get("used"))
+            hist["loads_recompiled"] += sum(1 for e in loads if e.get("recompiled"))
+            hist["visible_version_differs_from_current"] += sum(1 for e in loads if e.get("ver") != e.get("cur"))
+            hist["imports_of_loaded_module"] += sum(1 for e in o.get("hist", []) if e.get("t") == "already")
+            changed = False
+            for st in c["steps"]:
+                if st[0] in ("edit", "touch"):
+                    changed = True
+                elif st[0] == "reload" and changed:
+                    hist["reloads_after_edit_or_damage"] += 1
+                    changed = False
+        if c["k"] == "shape":
+            hist["stats_in_spec_shape"] = o.get("shape")
     _clean()
     return {"input_distribution": dist,
             "exhaustive_truncation_sweeps": sweeps,
             "marshal_outcomes_on_every_proper_prefix_of_real_payloads": marshal_out,
             "decode_result_classes": dec,
+            "in_process_histories": hist,
             "stale_wrap_witness_(written size 2^32+5, read against 5)_on_real_decoder": wrap,
             "pycache_prefix": I.PREFIX}
